@@ -428,14 +428,14 @@ impl StaticMetadata {
 
         for ni in named_instances.iter() {
             let instance_name = ni.name.as_str();
+            // the same string may sit under several name ids (say, a family named like
+            // its style); look at all of them, not at whichever the map yields first
             if ni.location == default_instance_location
-                && names
-                    .iter()
-                    .find_map(|(key, string)| (*string == instance_name).then_some(key.name_id))
-                    .is_some_and(|name_id| {
-                        name_id == NameId::SUBFAMILY_NAME
-                            || name_id == NameId::TYPOGRAPHIC_SUBFAMILY_NAME
-                    })
+                && names.iter().any(|(key, string)| {
+                    *string == instance_name
+                        && (key.name_id == NameId::SUBFAMILY_NAME
+                            || key.name_id == NameId::TYPOGRAPHIC_SUBFAMILY_NAME)
+                })
             {
                 log::debug!(
                     "Reuse existing subfamily name '{instance_name}' for default instance at {default_instance_location:?}",
